@@ -1,3 +1,4 @@
+pub mod alloc;
 pub mod run;
 pub mod tape;
 
